@@ -5,7 +5,7 @@ From Coq Require Import String.
 From Coq Require Import List Arith Bool Lia.
 Import ListNotations.
 From YP Require Import Base.Str Term.Term Lang.Ast Comp.IR Comp.CompileBody Comp.CompileClause Sem.Machine
-  Unify.UnifyGen Engine.GenMachine Engine.IRMachine Engine.Refine.
+  Unify.UnifyGen Engine.GenMachine Engine.IRMachine Engine.QueryFacts Engine.Refine.
 
 Lemma noassign_list_app a b : noassign_list (a ++ b) = noassign_list a && noassign_list b.
 Proof. induction a as [|s r IH]; cbn [app noassign_list]; [reflexivity|]. rewrite IH, andb_assoc. reflexivity. Qed.
@@ -92,7 +92,27 @@ Proof.
   intros H. inversion H; subst. eapply compile_groups_ok; eauto.
 Qed.
 
-(* machine_refines_irsem for every compiled program *)
+(* machine_refines_irsem for every compiled program and every database of dynamic facts
+   (big-step side: Engine/QueryFacts.queryF = Sem.Machine.query with the facts tried first) *)
+Theorem compiled_machine_refines_facts p ir : compile_program p = Some ir ->
+  forall DB d name args nx h k, wf h ->
+  exists N hf itf, forall n, N <= n ->
+    m_nexts ir DB nouser n d k h (m_query ir DB nouser name args nx) =
+    Some (hf, itf, map sto (firstn k (fst (queryF ir DB d name args (mkst h nx)))),
+          if Nat.leb k (length (fst (queryF ir DB d name args (mkst h nx)))) then RYield
+          else rend (snd (queryF ir DB d name args (mkst h nx))))
+    /\ (length (fst (queryF ir DB d name args (mkst h nx))) < k -> hf = h).
+Proof. intros H DB. apply machine_refines_irsem. eapply compiled_ir_ok; eauto. Qed.
+
+Theorem compiled_machine_refines_facts_fuel p ir : compile_program p = Some ir ->
+  forall DB d name args nx h k n hf itf ys r, wf h ->
+  m_nexts ir DB nouser n d k h (m_query ir DB nouser name args nx) = Some (hf, itf, ys, r) ->
+  ys = map sto (firstn k (fst (queryF ir DB d name args (mkst h nx)))) /\
+  r = (if Nat.leb k (length (fst (queryF ir DB d name args (mkst h nx)))) then RYield
+       else rend (snd (queryF ir DB d name args (mkst h nx)))).
+Proof. intros H DB. intros. eapply machine_refines_irsem_fuel; eauto. eapply compiled_ir_ok; eauto. Qed.
+
+(* without dynamic facts the big-step side IS Sem.Machine.query, the semantics of C01/C05/C06 *)
 Theorem compiled_machine_refines_irsem p ir : compile_program p = Some ir ->
   forall d name args nx h k, wf h ->
   exists N hf itf, forall n, N <= n ->
@@ -101,7 +121,11 @@ Theorem compiled_machine_refines_irsem p ir : compile_program p = Some ir ->
           if Nat.leb k (length (fst (query d ir name args (mkst h nx)))) then RYield
           else rend (snd (query d ir name args (mkst h nx))))
     /\ (length (fst (query d ir name args (mkst h nx))) < k -> hf = h).
-Proof. intros H. apply machine_refines_irsem. eapply compiled_ir_ok; eauto. Qed.
+Proof.
+  intros H d name args nx h k W.
+  destruct (compiled_machine_refines_facts p ir H nofacts d name args nx h k W) as [N [hf [itf HN]]].
+  unfold nofacts in HN at 3 4 5 6. rewrite !queryF_nofacts in HN. exists N, hf, itf. exact HN.
+Qed.
 
 Theorem compiled_machine_refines_irsem_fuel p ir : compile_program p = Some ir ->
   forall d name args nx h k n hf itf ys r, wf h ->
@@ -109,4 +133,8 @@ Theorem compiled_machine_refines_irsem_fuel p ir : compile_program p = Some ir -
   ys = map sto (firstn k (fst (query d ir name args (mkst h nx)))) /\
   r = (if Nat.leb k (length (fst (query d ir name args (mkst h nx)))) then RYield
        else rend (snd (query d ir name args (mkst h nx)))).
-Proof. intros H. intros. eapply machine_refines_irsem_fuel; eauto. eapply compiled_ir_ok; eauto. Qed.
+Proof.
+  intros H d name args nx h k n hf itf ys r W E.
+  destruct (compiled_machine_refines_facts_fuel p ir H nofacts d name args nx h k n hf itf ys r W E) as [A B].
+  unfold nofacts in A, B. rewrite !queryF_nofacts in A, B. auto.
+Qed.
